@@ -107,6 +107,9 @@ func verifyFunctionOpt(P *Program, fn *ssa.Function, props []string, opt func(*E
 	if ct.Exact {
 		e.forceInline = true
 	}
+	if ct.Prune {
+		e.prune = true
+	}
 	e.curProps = ct.Props
 	if len(e.curProps) == 0 {
 		e.curProps = props
